@@ -296,4 +296,29 @@ def buildRefs (timeIndex : Bool) : List Obj → Nat → List SegRef
 def listCompleted (objs : List Obj) (timeIndex : Bool) : List SegRef :=
   buildRefs timeIndex (sortObjs (objs.filter (·.complete))) 0
 
+/-! ### time-index faults: `timeIndexReader.enrich` returns without touching the reference when the
+read of the segment's `.kfst` footer fails — the segment is listed without footer statistics -/
+
+/-- `buildRefs` with the time index available per object (`ti o = false`: time index off, no `.kfst`
+yet, or its read failed) -/
+def buildRefsT (ti : Obj → Bool) : List Obj → Nat → List SegRef
+  | [], _ => []
+  | o :: rest, i =>
+    let recs := o.recs.map fun p => (⟨i, o.partition, p.1, p.2⟩ : Rec)
+    let footer := if ti o then scanSegment recs else none
+    let footerMax := footer.map (·.2.2.2)
+    let maxOff := match rest with
+      | n :: _ =>
+        if n.topic = o.topic ∧ n.partition = o.partition then
+          (if n.base > 0 then some (n.base - 1) else footerMax)
+        else footerMax
+      | [] => footerMax
+    { topic := o.topic, partition := o.partition, minOffset := some o.base, maxOffset := maxOff,
+      minTs := footer.map (·.1), maxTs := footer.map (·.2.1), recs := recs,
+      lastModified := o.lastModified } :: buildRefsT ti rest (i + 1)
+
+/-- `ListCompleted` where the footer read fails for the objects with `ti o = false` -/
+def listCompletedT (objs : List Obj) (ti : Obj → Bool) : List SegRef :=
+  buildRefsT ti (sortObjs (objs.filter (·.complete))) 0
+
 end KafVerif.SqlFilter
